@@ -6,13 +6,13 @@ def conv(typ, what):
     return dict(category="exploration", design="DESIGN.md §2, §3",
       technique="runtime monitoring: reference-model monitor executing the script emitted by the real drc, semantic equivalence + second compare oracle",
       text=f"Seeded (device, target) pairs for {typ} ({what}) are fed to the real drc; the printed script is executed command by command on an independent device model; the resulting state must be semantically equivalent to the target, a second compare of the dumped model must be empty and 'device unchanged' is only accepted for equivalent devices; a command the model refuses under the rules of C08 and a tool crash on a valid pair count as not converged. PAN-OS and NSX: every 8th pair is a complete live approve against the HTTPS simulator backed by the model. quick 1500 pairs, thorough 40000.",
-      note="Device semantics are those of the model (written from CLI/API documentation, Appendix A of DESIGN.md); the generators cover the edit operations listed in the evidence rule; unmodelled commands make a case inconclusive. Generators were extended after each of five rounds of seeded changes (DESIGN.md 8.4).")
+      note="Device semantics are those of the model (written from CLI/API documentation, Appendix A of DESIGN.md); the generators cover the edit operations listed in the evidence rule; unmodelled commands make a case inconclusive. Generators were extended after each of seven rounds of seeded changes (DESIGN.md 8.4).")
 
 CLAIMED = {
  "C20": dict(
    category="exploration", design="DESIGN.md §3 C20",
    technique="runtime monitoring: exit-status/stderr/watchdog oracle over an enumerated input-mutation family run through the real binaries",
-   text="Every member of a deterministic mutation family (word truncations, token delete/dup/swap, indentation, structural JSON/XML damage, garbage files; each text at all four argument positions) derived from all configuration texts of the repository's test data, the valid pairs of all generators plus mutations of some of them, and info-file variants in live sessions of all device types (drc and do-approve, reachable and unreachable device) is executed by the real binaries; thorough enumerates the whole family, quick a seeded sample. A crash site (top repository frame + panic class) not listed in known_findings.json is a violation.",
+   text="Every member of a deterministic mutation family (word truncations, token delete/dup/swap, indentation, doubled blank / TAB between words, trailing blank / CR, structural JSON/XML damage, garbage files; each text at all four argument positions) derived from all configuration texts of the repository's test data, the valid pairs of all generators plus mutations of some of them, and info-file variants in live sessions of all device types (drc and do-approve, reachable and unreachable device) is executed by the real binaries; thorough enumerates the whole family, quick a seeded sample. A crash site (top repository frame + panic class) not listed in known_findings.json is a violation.",
    note="Trusted: Go runtime prints 'panic:'/'fatal error:' on crashes; 20 s watchdog re-checked serially with 120 s. Coverage is the enumerated family only, not all byte strings."),
 }
 
@@ -20,7 +20,7 @@ CLAIMED.update({
  "C16": dict(
    category="exploration", design="DESIGN.md §3 C16",
    technique="runtime monitoring: N fresh processes per input, byte comparison of stdout / exit status / WARNING lines",
-   text="Tie-rich hand-built inputs for all five device types (k identical groups, equal crypto peers, multi-option rule differences, many same-kind raw objects, unused raw objects of different kinds sharing one name), one pair holding every rule spelling the Linux normaliser rewrites, every file-mode pair of the repository's test data and generated convergence pairs of all five device types are each executed by 16 (quick) / 64 (thorough) fresh drc processes; any difference in script, exit status or warnings is a violation.",
+   text="Tie-rich hand-built inputs for all five device types (k identical groups, equal crypto peers, multi-option rule differences, many same-kind raw objects, unused raw objects of different kinds sharing one name, a raw ACL referenced by two anchors of different kinds, several NSX gateway policies new at once), one pair holding every rule spelling the Linux normaliser rewrites, every file-mode pair of the repository's test data and generated convergence pairs of all five device types are each executed by 16 (quick) / 64 (thorough) fresh drc processes; any difference in script, exit status or warnings is a violation.",
    note="Go randomises map iteration per range statement; N runs sample the orders, they do not enumerate them. ERROR>>> text and info lines are outside the statement and only recorded as anomalies."),
  "C18": dict(
    category="exploration", design="DESIGN.md §3 C18",
@@ -33,12 +33,12 @@ CLAIMED.update({
  "C13": dict(
    category="exploration", design="DESIGN.md §3 C13",
    technique="runtime monitoring: reference model over conclusive observations vs. the real missing-approve after every event of exhaustively enumerated histories",
-   text="All histories up to depth 5 (quick) / 7 (thorough) over 15 event kinds (new policy same/v4/v6/raw, approve ok/failed, compare, drift, repair, bzip2, removal, four kinds of status damage) are executed: status updates by the repository's own status.SetApprove/SetCompare (statusdrv rebuilt from /repo), every policy also holding two dual-stack bystander devices, for devices with the code file layouts v4+v6+raw, v6+raw, v4, v6, v4+raw (the first at full depth, the others one less), file events as real file operations, and the real missing-approve binary is run after every event; plus every byte-offset truncation of the status contents seen. Exact-state memoisation only.",
+   text="All histories up to depth 5 (quick) / 7 (thorough) over 16 event kinds (new policy same/v4/v6/raw/shrunk to a prefix of the old code, approve ok/failed, compare, drift, repair, bzip2, removal, four kinds of status damage) are executed: status updates by the repository's own status.SetApprove/SetCompare (statusdrv rebuilt from /repo), every policy also holding two dual-stack bystander devices, for devices with the code file layouts v4+v6+raw, v6+raw, v4, v6, v4+raw (the first at full depth, the others one less), file events as real file operations, and the real missing-approve binary is run after every event; plus every byte-offset truncation of the status contents seen. Exact-state memoisation only.",
    note="The abstraction do-approve => SetApprove(failed)/SetCompare(changed||errors) is read off doapprove.Main; forged-but-valid JSON status files and compressing the current policy are outside the claim."),
  "C19": dict(
    category="fault_enumeration", design="DESIGN.md §3 C19",
    technique="runtime monitoring with fault injection: BASH_ENV DEBUG-trap kill at every simple command of the unmodified newpolicy.sh, SIGKILL while parked in children, concurrent invocations; file-tree monitor after every event",
-   text="For ten commit histories (incl. the digit boundary p9/p10) the real newpolicy.sh is killed at every simple command of its reference run (thorough; quick: every 3rd step of three histories), killed from outside while parked inside git clone / the compiler stub (orphan keeps the lock), raced by 1-3 contenders, and disturbed by a good or bad commit pushed while its compiler works; after every event the monitor checks current absent-or-complete-and-compiling, source of current = the compiled revision, increasing numbers, non-interleaved compiler runs, and that one undisturbed run makes the newest compiling revision current.",
+   text="For ten commit histories (incl. the digit boundary p9/p10) the real newpolicy.sh is killed at every simple command of its reference run (thorough; quick: every 3rd step of three histories), killed from outside while parked inside git clone / the compiler stub (orphan keeps the lock), raced by 1-3 contenders, disturbed by a good or bad commit pushed while its compiler works, and run in the three-process schedule 'second run holds an open lock file handle when the first finishes, third run arrives while the second works' (the injector can hold the script in front of a chosen command); after every event the monitor checks current absent-or-complete-and-compiling, source of current = the compiled revision, increasing numbers, non-interleaved compiler runs, and that one undisturbed run makes the newest compiling revision current.",
    note="Compiler and mail are stubs, sudo branch not taken; kills happen on simple-command boundaries and inside the two long-running children only; liveness is the bounded one-run form."),
 })
 
@@ -46,17 +46,17 @@ CLAIMED.update({
  "C06": dict(
    category="fault_enumeration", design="DESIGN.md §3 C06",
    technique="runtime monitoring: classified transcript of stateful device simulators over the enumerated product of interlock conditions",
-   text="The full product device type x front-end x 3 pending-change scenarios (PAN-OS incl. a device with two vsys of which only the first lacks the marker) x 6 hostname variants (Linux and ASA also: the name query fails / answers with an empty line) x 5 marker variants x 7 PAN-OS HA constellations (about 2200 live runs) is executed against the simulators; where an interlock condition holds the transcript must hold no config-change and no save/commit event, exit != 0 and an ERROR>>> diagnostic, otherwise approve must apply exactly the reference run's changes and save.",
+   text="The full product device type x front-end x 3 pending-change scenarios (PAN-OS incl. a device with two vsys of which only the first lacks the marker) x 6 hostname variants (Linux and ASA also: the name query fails / answers with an empty line) x 7 marker variants (two with a banner regexp that starts with '#') x 7 PAN-OS HA constellations (about 2200 live runs) is executed against the simulators; where an interlock condition holds the transcript must hold no config-change and no save/commit event, exit != 0 and an ERROR>>> diagnostic, otherwise approve must apply exactly the reference run's changes and save.",
    note="Simulators are written from the dialogue the tool expects and from device documentation; NSX reports neither hostname nor marker nor HA state, so only the works-normally clause applies there. A 1-in-25 sample runs under -race."),
  "C09": dict(
    category="fault_enumeration", design="DESIGN.md §3 C09",
    technique="runtime monitoring with peer fault injection at every dialogue position; transcript + exit status + status/history oracle",
-   text="For 5 device types x {drc, do-approve approve, do-approve compare} x 3 scenarios a fault of every kind (error text, unexpected output, tolerated notice lines followed by an error line, wrong echo, silent exit status, close, stall, HTTP 4xx/5xx, malformed body, status=error, commit/job FAIL) is injected at every ordinal position of the reference dialogue (PAN-OS incl. a two-vsys device, ASA incl. a device that needs session set-up), plus, for IOS, an error at a change command whose echo a reload banner interrupts (4 banner forms) and seven write-memory variants (NVRAM question then OK / too large / open failed, too large, no [OK], busy once, busy always); after a delivered fault no later change/save may be sent, exit != 0, status FAILED/DIFF and history END: FAILED; on every run status OK requires no delivered fault, all commands accepted and a confirmed save.",
+   text="For 5 device types x {drc, do-approve approve, do-approve compare} x 3 scenarios a fault of every kind (error text, unexpected output, tolerated notice lines followed by an error line, wrong echo, silent exit status, close, stall, HTTP 4xx/5xx with and without body, malformed body, status=error, commit/job FAIL) is injected at every ordinal position of the reference dialogue (PAN-OS incl. a two-vsys device, ASA incl. a device that needs session set-up), plus, for IOS, an error at a change command whose echo a reload banner interrupts (4 banner forms x 2:00 / 1:00) and seven write-memory variants (NVRAM question then OK / too large / open failed, too large, no [OK], busy once, busy always); after a delivered fault no later change/save may be sent, exit != 0, status FAILED/DIFF and history END: FAILED; on every run status OK requires no delivered fault, all commands accepted and a confirmed save.",
    note="Output-type faults count only at steps whose answer is a verdict (login, hostname, retrieval, change, guard, save); the second half of a joined line cannot be stopped; dropped HTTP connections stay dead. Quick samples stalls (1 s each) at every 5th position."),
  "C11": dict(
    category="fault_enumeration", design="DESIGN.md §3 C11",
    technique="runtime monitoring: absence of change/save events in the simulator transcript of compare runs, with faults at every position and interlock variants",
-   text="Compare runs (drc -C, do-approve compare) for all device types, 3 scenarios with differences, 5 interlock variants, a PAN-OS candidate configuration holding uncommitted nodes of the login user, drc option sets (no log directory, quiet), other spellings of the compare verb and flag (Compare, COMPARE, --compare, -qC, --compare=true) and a fault of each kind at every dialogue position; the transcript must contain no config-change and no save/commit event.",
+   text="Compare runs (drc -C, do-approve compare) for all device types, 3 scenarios with differences, 5 interlock variants, a PAN-OS candidate configuration holding uncommitted nodes of the login user, drc option sets (no log directory, quiet), other spellings of the compare verb and flag (Compare, COMPARE, --compare, -qC, --compare=true) and a fault of each kind at every dialogue position; the transcript must contain no config-change and no save/commit event, an IOS compare must not enter configuration mode (foreign pending reload whose banner lands inside the configuration listing included), and no file may be copied to the device (scp hook).",
    note="State is initial config + accepted change events, so unchanged state equals no accepted change event. ASA terminal width is a session setting."),
 })
 
@@ -69,12 +69,12 @@ CLAIMED.update({
  "C15": dict(
    category="fault_enumeration", design="DESIGN.md §3 C15",
    technique="runtime monitoring: IOS simulator with reload state machine injecting asynchronous banners at enumerated positions/forms/chunkings; transcript ordering invariants + outcome equality with the banner-free run",
-   text="23 IOS change scripts x every received line of the guarded window x banner form (before echo with own prompt, inside echo at 3 offsets, after echo without / with own prompt, behind the complete echo line, after the regular prompt) x kind (2:00, 1:00 in both spellings 0:0N:00 and 00:0N:00, ABORTED placement) x 3 write chunkings, the confirmation step of the arm dialogue included (~7000 live runs thorough, quick a hash sample: 1-in-4, two-digit hour spelling 1-in-8): every change inside the armed window, write memory only after cancel and without rejected change, nothing pending after success, same exit status and change sequence as without banner, re-arm after a 1:00 banner.",
+   text="23 IOS change scripts x every received line of the guarded window x banner form (before echo with own prompt, inside echo at 3 offsets, after echo without / with own prompt, behind the complete echo line, after the regular prompt) x kind (2:00, 1:00 in both spellings 0:0N:00 and 00:0N:00, ABORTED placement) x 3 write chunkings, the confirmation step of the arm dialogue included (~7000 live runs thorough, every sampled case with a twin on a router that does not ask 'Save?'; quick a hash sample: 1-in-4, two-digit hour spelling 1-in-8, twins 1-in-3): every change inside the armed window, write memory only after cancel and without rejected change, nothing pending after success, same exit status and change sequence as without banner, re-arm after a 1:00 banner.",
    note="Only banner forms the device is known to produce; the simulated router never actually reloads; a banner with own prompt between echo and output of 'configure terminal' is not generated."),
  "C17": dict(
    category="exploration", design="DESIGN.md §3 C17",
    technique="runtime monitoring: byte scan of every file, stdout and stderr written by live runs with unique random secrets, under success and injected failures",
-   text="Live runs for all device types, both front-ends, approve and compare, three secret alphabets, info files with one and two device names, the PAN-OS key also delivered as CDATA, success plus failures of every kind at the first 8, one middle and the last 3 dialogue positions; all files below basedir and the log directory, stdout and stderr are scanned for password, API key, xsrf token and session cookie in plain, query-/path-escaped, lower-hex-escaped, unescaped and unpadded spelling.",
+   text="Live runs for all device types, both front-ends, approve and compare, three secret alphabets, info files with one and two device names, the PAN-OS key also delivered as CDATA, and 'drc -u USER' with the password typed on a pseudo terminal (streams on the terminal or redirected; the terminal display is a scanned sink), success plus failures of every kind at the first 8, one middle and the last 3 dialogue positions; all files below basedir and the log directory, stdout and stderr are scanned for password, API key, xsrf token and session cookie in plain, query-/path-escaped, lower-hex-escaped, unescaped and unpadded spelling.",
    note="Simulated devices do not echo passwords; device-issued keys are alphanumeric with '=' padding; passwords contain no white space."),
 })
 
